@@ -44,6 +44,19 @@ def build_script(p, ver, varnames, extra=""):
     return "\n".join(lines) + "\n"
 
 
+def checkout_script(p, ver):
+    """deterministic checkout script: regenerates exactly the file set of source version `ver`"""
+    lines = ["# checkout script of %s, source version %s" % (p, ver),
+             "rm -rf a.txt sub partial.txt",
+             'if [ -e "${VF_CTL:-/nonexistent}/%s.co.kill" ]; then echo partial > partial.txt; kill -9 $PPID; sleep 2; exit 1; fi' % p,
+             'if [ -e "${VF_CTL:-/nonexistent}/%s.co.fail" ]; then echo partial > partial.txt; exit 1; fi' % p]
+    for rel, data in sorted(src_files(p, ver).items()):
+        if "/" in rel:
+            lines.append("mkdir -p %s" % rel.rsplit("/", 1)[0])
+        lines.append("printf '%%s' '%s' > %s" % (data.replace("\n", "\\n"), rel))
+    return "\n".join(lines) + "\n"
+
+
 def package_script(p, ver, varnames=()):
     lines = ["# package script of %s, version %s" % (p, ver),
              'if [ -e "${VF_CTL:-/nonexistent}/%s.pk.kill" ]; then echo partial > pkg.txt; kill -9 $PPID; sleep 2; exit 1; fi' % p,
@@ -70,11 +83,12 @@ def src_files(p, ver):
     return {"a.txt": "%s-0\n" % p, "sub/b.txt": "%s-x\n" % p}
 
 
-def render_bobbuild(proj):
+def render_bobbuild(proj, define=False):
     """proj = the `proj` record of specs/BobBuild.tla (as JSON). Returns relpath -> text
-    for recipes/config and a dict of source trees."""
+    for recipes/config and a dict of source trees. With define=True the value of V is not in
+    default.yaml but must be passed as -DV=<value> on the command line."""
     files = {"config.yaml": CONFIG}
-    files["default.yaml"] = "environment:\n  V: \"%s\"\nwhitelist: [VF_CTL]\n" % proj["V"]
+    files["default.yaml"] = "environment:\n  V: \"%s\"\nwhitelist: [VF_CTL]\n" % ("from-default-yaml" if define else proj["V"])
     lib = ["checkoutSCM:", "  scm: import", "  url: src/lib", "  prune: True",
            "buildScript: " + yaml_block(build_script("lib", proj["bver"]["lib"], [])),
            "packageScript: " + yaml_block(package_script("lib", proj["pver"]["lib"])),
@@ -84,12 +98,13 @@ def render_bobbuild(proj):
     app = ["root: true"]
     if proj["dep"]:
         app += ["depends:", "  - name: lib", "    use: [result, environment]"]
-    app += ["checkoutSCM:", "  scm: import", "  url: src/app", "  prune: True",
+    app += ["checkoutDeterministic: True",
+            "checkoutScript: " + yaml_block(checkout_script("app", proj["src"]["app"])),
             "buildVars: [%s]" % ", ".join(bvars),
             "buildScript: " + yaml_block(build_script("app", proj["bver"]["app"], bvars)),
             "packageScript: " + yaml_block(package_script("app", proj["pver"]["app"]))]
     files["recipes/app.yaml"] = "\n".join(app) + "\n"
-    srcs = {"src/app": src_files("app", proj["src"]["app"]), "src/lib": src_files("lib", proj["src"]["lib"])}
+    srcs = {"src/lib": src_files("lib", proj["src"]["lib"])}
     return files, srcs
 
 
